@@ -29,7 +29,7 @@ def backends():
 
 
 def shards(tier, seed):
-    return A.make_shards(tier, "opt", extra={"full": tier == "thorough"})
+    return A.make_shards(tier, "opt", extra={"full": tier == "thorough", "dup_every": 7})
 
 
 def judge(spec, recipe, backend, obs, opt):
